@@ -12,6 +12,7 @@ import warnings
 from rdflib import BNode, Dataset, Graph, URIRef
 from rdflib.graph import ConjunctiveGraph, DATASET_DEFAULT_GRAPH_ID
 from rdflib.plugins.stores.memory import Memory, SimpleMemory
+from rdflib.store import Store
 
 from .vocab import Vocab
 
@@ -26,6 +27,50 @@ def universe(cfg):
 
 def patterns(cfg):
     return [list(t) for t in itertools.product(list(cfg["S"]) + ["_"], list(cfg["P"]) + ["_"], list(cfg["O"]) + ["_"])]
+
+
+class Delegating(Store):
+    """a store that is not the in-memory store (nor a subclass): every call is passed on to a Memory store"""
+    context_aware = True
+    graph_aware = True
+    formula_aware = True
+
+    def __init__(self, configuration=None, identifier=None):
+        super().__init__(configuration, identifier)
+        self.inner = Memory()
+
+    def add(self, triple, context, quoted=False):
+        self.inner.add(triple, context, quoted)
+
+    def remove(self, triple, context=None):
+        self.inner.remove(triple, context)
+
+    def triples(self, triple_pattern, context=None):
+        return self.inner.triples(triple_pattern, context)
+
+    def __len__(self, context=None):
+        return self.inner.__len__(context)
+
+    def contexts(self, triple=None):
+        return self.inner.contexts(triple)
+
+    def add_graph(self, graph):
+        self.inner.add_graph(graph)
+
+    def remove_graph(self, graph):
+        self.inner.remove_graph(graph)
+
+    def bind(self, prefix, namespace, override=True):
+        self.inner.bind(prefix, namespace, override)
+
+    def prefix(self, namespace):
+        return self.inner.prefix(namespace)
+
+    def namespace(self, prefix):
+        return self.inner.namespace(prefix)
+
+    def namespaces(self):
+        return self.inner.namespaces()
 
 
 class World:
@@ -47,7 +92,7 @@ class World:
             for n in cfg["names"]:
                 self.graphs[n] = Graph(store=self.store, identifier=self.v.gid(n) or URIRef("urn:g:D"))
         elif self.facade == "dataset":
-            self.ds = Dataset(default_union=cfg.get("default_union", False))
+            self.ds = Dataset(store=Delegating(), default_union=cfg.get("default_union", False)) if st == "Delegating" else Dataset(default_union=cfg.get("default_union", False))
             self.store = self.ds.store
         elif self.facade == "cg":
             self.ds = ConjunctiveGraph()
